@@ -899,3 +899,119 @@ func GenFeature(r *rand.Rand, id string) *Case {
 	}
 	return c
 }
+
+// GenLong: grammars with long right-hand sides (10-14 symbols) so that $10, $11, ... occur,
+// with different value tags on neighbouring positions (C07 "rules of every length").
+func GenLong(r *rand.Rand, id string) *Case {
+	c := &Case{ID: id, Family: "long", Start: "S", Types: map[string]string{}}
+	ts := []string{"a", "b", "c", "d"}
+	for _, t := range ts {
+		c.Tokens = append(c.Tokens, Tok{Name: t})
+	}
+	n := 10 + r.Intn(5)
+	var rhs []string
+	for i := 0; i < n; i++ {
+		if r.Intn(4) == 0 {
+			rhs = append(rhs, "A")
+		} else {
+			rhs = append(rhs, ts[r.Intn(len(ts))])
+		}
+	}
+	c.Rules = append(c.Rules, Rule{Lhs: "S", Rhs: rhs})
+	c.Rules = append(c.Rules, Rule{Lhs: "S", Rhs: []string{ts[r.Intn(4)], "A"}})
+	c.Rules = append(c.Rules, Rule{Lhs: "A", Rhs: []string{ts[r.Intn(4)]}})
+	if r.Intn(2) == 0 {
+		c.Rules = append(c.Rules, Rule{Lhs: "A", Rhs: []string{}})
+	}
+	return c
+}
+
+// GenBig: m disjoint copies (distinct nonterminals, shared terminals) of a statement/expression
+// grammar behind distinct leading keywords: LALR(1), conflict-free, 40*m-ish states.  Makes state
+// numbers cross 100, 200, ... (codes and offsets that are only safe for small automata show here).
+func GenBig(r *rand.Rand, id string, m int) *Case {
+	c := &Case{ID: id, Family: "big", Start: "S", Types: map[string]string{}}
+	for _, t := range []string{"id", "num", "IF", "THEN", "ELSE"} {
+		c.Tokens = append(c.Tokens, Tok{Name: t})
+	}
+	for i := 1; i <= m; i++ {
+		k := fmt.Sprintf("K%d", i)
+		c.Tokens = append(c.Tokens, Tok{Name: k})
+		sfx := fmt.Sprint(i)
+		P, St, E, Tm, F, Args := "P"+sfx, "St"+sfx, "E"+sfx, "Tm"+sfx, "F"+sfx, "Args"+sfx
+		c.Rules = append(c.Rules,
+			Rule{Lhs: "S", Rhs: []string{k, P}},
+			Rule{Lhs: P, Rhs: []string{}},
+			Rule{Lhs: P, Rhs: []string{P, St, "';'"}},
+			Rule{Lhs: St, Rhs: []string{"id", "'='", E}},
+			Rule{Lhs: St, Rhs: []string{"IF", E, "THEN", St, "ELSE", St}},
+			Rule{Lhs: St, Rhs: []string{"'{'", P, "'}'"}},
+			Rule{Lhs: E, Rhs: []string{E, "'+'", Tm}},
+			Rule{Lhs: E, Rhs: []string{E, "'-'", Tm}},
+			Rule{Lhs: E, Rhs: []string{Tm}},
+			Rule{Lhs: Tm, Rhs: []string{Tm, "'*'", F}},
+			Rule{Lhs: Tm, Rhs: []string{F}},
+			Rule{Lhs: F, Rhs: []string{"'('", E, "')'"}},
+			Rule{Lhs: F, Rhs: []string{"'-'", F}},
+			Rule{Lhs: F, Rhs: []string{"id"}},
+			Rule{Lhs: F, Rhs: []string{"num"}},
+			Rule{Lhs: F, Rhs: []string{"id", "'('", Args, "')'"}},
+			Rule{Lhs: F, Rhs: []string{"id", "'['", E, "']'"}},
+			Rule{Lhs: Args, Rhs: []string{}},
+			Rule{Lhs: Args, Rhs: []string{E}},
+			Rule{Lhs: Args, Rhs: []string{Args, "','", E}},
+		)
+	}
+	return c
+}
+
+// GenRing: k mutually right-recursive nonterminals entered from several contexts: the includes
+// relation has a non-trivial strongly connected component fed from outside (what Digraph's SCC
+// handling is for).
+func GenRing(r *rand.Rand, id string) *Case {
+	c := &Case{ID: id, Family: "ring", Start: "S", Types: map[string]string{}}
+	k := 3 + r.Intn(3)
+	var ring []string
+	for i := 0; i < k; i++ {
+		ring = append(ring, fmt.Sprintf("R%d", i))
+		c.Tokens = append(c.Tokens, Tok{Name: fmt.Sprintf("x%d", i)}, Tok{Name: fmt.Sprintf("e%d", i)}, Tok{Name: fmt.Sprintf("p%d", i)})
+	}
+	for i := 0; i < k; i++ {
+		if i == 0 {
+			c.Rules = append(c.Rules, Rule{Lhs: "S", Rhs: []string{ring[0], "e0"}})
+		} else if r.Intn(4) != 0 {
+			c.Rules = append(c.Rules, Rule{Lhs: "S", Rhs: []string{fmt.Sprintf("p%d", i), ring[i], fmt.Sprintf("e%d", i)}})
+		}
+	}
+	for i := 0; i < k; i++ {
+		nxt := ring[(i+1)%k]
+		c.Rules = append(c.Rules, Rule{Lhs: ring[i], Rhs: []string{fmt.Sprintf("x%d", i), nxt}})
+		if i == k-1 || r.Intn(3) == 0 {
+			c.Rules = append(c.Rules, Rule{Lhs: ring[i], Rhs: []string{fmt.Sprintf("x%d", i)}})
+		}
+	}
+	return c
+}
+
+func renameSym(c *Case, from, to string) {
+	if from == "" || from == to || c.isNT(to) || c.isTerm(to) {
+		return
+	}
+	rn := func(s string) string {
+		if s == from {
+			return to
+		}
+		return s
+	}
+	c.Start = rn(c.Start)
+	for i := range c.Rules {
+		c.Rules[i].Lhs = rn(c.Rules[i].Lhs)
+		for j := range c.Rules[i].Rhs {
+			c.Rules[i].Rhs[j] = rn(c.Rules[i].Rhs[j])
+		}
+	}
+	if t, ok := c.Types[from]; ok {
+		delete(c.Types, from)
+		c.Types[to] = t
+	}
+}
